@@ -53,10 +53,17 @@ def main(argv) -> int:
     context = {'keep': 'K', 'only1': 1, 'only2': 2, 'only3': 3, 'drop': 'D'}
     import logging
     labtech.logger.setLevel(logging.CRITICAL)
+    first = None
+    if '+' in backend:
+        # an earlier run of the same interpreter used another process backend
+        first, backend = backend.split('+')
+        lab0 = labtech.Lab(storage=None, max_workers=mw, notebook=False, context=context, runner_backend=first)
+        lab0.run_tasks([EnvProbe(ident=7), EnvProbe(ident=8)], disable_progress=True, disable_top=True)
     lab = labtech.Lab(storage=None, max_workers=mw, notebook=False, context=context, runner_backend=backend)
     res = lab.run_tasks([c, a, b], disable_progress=True, disable_top=True)
     out = {
         'backend': backend,
+        'earlier_backend': first,
         'max_workers': mw,
         'caller_pid': os.getpid(),
         'results': [res[t] for t in (a, b, c)],
